@@ -167,6 +167,8 @@ class C19(P.Property):
 
     # ------------------------------------------------------------------ execution
     def execute(self, plan):
+        from .. import world
+        world.restore_repo_state()  # one plan = one execution: nothing of an earlier run in module-, class- or default-argument state
         res = P.Result()
         g = plan["geom"]
         n, isz, chunk = g["n"], g["isz"], g["chunk"]
@@ -537,7 +539,7 @@ class C19(P.Property):
             except Exception:
                 pass
         geomcls = (n % chunk == 0, chunk > n, chunk == 1)
-        res.digest = P.digest_of((obs, [dict(v) for v in viol]))
+        res.digest = P.digest_of((obs, [v.cls() for v in viol]))
         res.shape = P.shape_of((geomcls, obs))
         res.nontrivial = mutated and reopened
         res.events = len(obs)
